@@ -133,15 +133,22 @@ theorem pushDefaultK_erase : ∀ (b : B) (k : Nat) (b' : B), pushDefaultK b k = 
     simp only [pushDefaultK, ctx_ok] at h
     split at h
     · simp [fail] at h
+    rename_i hk0
+    split at h
+    · simp [fail] at h
     · rename_i hk
       obtain ⟨fs', h1, h2⟩ := (bind_ok _ _ _).1 h
+      split at h2
+      · simp [fail] at h2
+      rename_i hk2
       cases h2
       have hfr : firstReal (.cons (erase c) m (eraseL rest)) = firstReal (.cons c m rest) := by
         have := firstReal_eraseL (.cons c m rest)
         simpa only [eraseL] using this
       have hat := pushDefaultKAt_erase (.cons c m rest) (firstReal (.cons c m rest)) k fs' h1
       simp only [eraseL] at hat
-      simp only [erase, eraseL, pushDefaultK, ctx_ok, hfr, hk, if_false, hat]; rfl
+      simp only [erase, eraseL, pushDefaultK, ctx_ok, hfr, hk0, hk, if_false, hat]
+      exact (bind_ok _ _ _).2 ⟨_, rfl, by simp only [hk2, if_false]; rfl⟩
 theorem pushDefaultKAll_erase : ∀ (fs : BL) (k : Nat) (fs' : BL), pushDefaultKAll fs k = .ok fs' →
     pushDefaultKAll (eraseL fs) k = .ok (eraseL fs')
   | .nil, k, fs', h => by simp [pushDefaultKAll] at h; subst h; simp [eraseL, pushDefaultKAll]
